@@ -20,6 +20,7 @@ import (
 	"github.com/slackhq/nebula/config"
 	"github.com/slackhq/nebula/firewall"
 	"github.com/slackhq/nebula/zzverif/mc"
+	"github.com/slackhq/nebula/zzverif/vtime"
 	"go.yaml.in/yaml/v3"
 )
 
@@ -47,6 +48,11 @@ import (
 //   packet (tuple, dir): possibilities whose original direction the CURRENT rules do not allow become N (the statement:
 //                        "otherwise the flow is forgotten"); a tracked possibility passes; N passes iff a current rule
 //                        allows (tuple, dir), and is then tracked with that direction.
+//   idle               : the flows see no packet for c19Idle (far beyond every conntrack timeout and the timer wheel's rounding):
+//                        every tracked possibility becomes N (C18: an expired flow is refused unless a rule allows the packet,
+//                        which then starts a NEW flow whose original direction is that packet's). The expired entries may
+//                        still sit in the real table (the wheel reaps lazily): the next flow on such a tuple is judged by the
+//                        following reloads like any other flow.
 // A verdict that no remaining possibility predicts is a violation. In particular a reload that changes nothing about the
 // rules adds no N, so an established flow MUST keep passing.
 
@@ -196,7 +202,7 @@ func c19SetString(s int) string {
 }
 
 type c19Ev struct {
-	Kind byte // P packet, L reload to rule set, T touch (non-rule firewall setting), D default_local_cidr_any toggle, U unsafe-network change, J set rulesVersion, K cache tick
+	Kind byte // I idle period, P packet, L reload to rule set, T touch (non-rule firewall setting), D default_local_cidr_any toggle, U unsafe-network change, J set rulesVersion, K cache tick
 	Arg  int
 }
 
@@ -207,6 +213,9 @@ type c19Flow struct {
 	settingNoEffect bool // a default_local_cidr_any / certificate reload that left the rules' meaning alone happened since the flow last passed
 	wrapped     bool // N is in the set only/also because of a rulesVersion wrap
 	reloads     int  // firewall-building reloads since the flow last passed
+	idled       bool // the flow was tracked and expired by an idle period; no packet of the tuple has passed since
+	reborn      int  // the flow was created by a rule-allowed packet while the expired entry of an earlier flow of the tuple was still in the table: 1 same original direction as the expired flow (or unknown), 2 the opposite one; 0 otherwise
+	lastDir     int  // possibilities (O/I) of the flow an idle period expired
 }
 
 type c19Stat struct {
@@ -223,6 +232,11 @@ type c19Stat struct {
 	mustDropMeaningOnly, mustPassSettingNoEffect      int64
 	versions                                          map[uint64]bool
 	settingReloadsNotReflected                        int64
+	idles, idleExpiredFlows, idleRealClock            int64 // idle periods; tracked flows they expired; ... of which on the virtual clock itself (full node)
+	mustDropIdle                                      int64 // packet no rule allows on a flow an idle period expired: refused
+	rebornOnStale, rebornOpposite                     int64 // flow created on a tuple whose expired entry was still in the real table; ... with the opposite original direction
+	rebornJudgedPass, rebornJudgedDrop                int64 // such a flow judged after a later firewall-building reload: must pass / must be refused
+	rebornOppositeJudged                              int64
 }
 
 type c19World struct {
@@ -239,6 +253,7 @@ type c19World struct {
 	unsafe  bool
 	dla     bool // firewall.default_local_cidr_any
 	jumped  bool
+	idled   bool // an idle period happened in this history
 	useCach bool
 	caches  [2]firewall.ConntrackCache
 	// reference
@@ -416,6 +431,15 @@ func (w *c19World) close() {
 	a.groupDenied += b.groupDenied
 	a.dlaReloads += b.dlaReloads
 	a.settingReloadsNotReflected += b.settingReloadsNotReflected
+	a.idles += b.idles
+	a.idleExpiredFlows += b.idleExpiredFlows
+	a.idleRealClock += b.idleRealClock
+	a.mustDropIdle += b.mustDropIdle
+	a.rebornOnStale += b.rebornOnStale
+	a.rebornOpposite += b.rebornOpposite
+	a.rebornJudgedPass += b.rebornJudgedPass
+	a.rebornJudgedDrop += b.rebornJudgedDrop
+	a.rebornOppositeJudged += b.rebornOppositeJudged
 	a.meaningOnlyReloads += b.meaningOnlyReloads
 	a.mustDropMeaningOnly += b.mustDropMeaningOnly
 	a.mustPassSettingNoEffect += b.mustPassSettingNoEffect
@@ -491,6 +515,10 @@ func (w *c19World) packet(i int) {
 		cache = w.caches[ci]
 		_, stale = cache[pk.P]
 	}
+	staleEntry := false // (read only, statistics) the real table still holds an expired entry of this tuple
+	if ce, ok := fw.Conntrack.Conns[pk.P]; ok && !ce.Expires.After(vtime.Now()) {
+		staleEntry = true
+	}
 	err := fw.Drop(pk.P, pk.Incoming, w.hosts[pk.Peer], w.f.pki.GetCAPool(), cache)
 	pass := err == nil
 	detail := map[string]any{"packet": pk.Label, "fwPacket": pk.P, "incoming": pk.Incoming, "drop_result": fmt.Sprint(err)}
@@ -562,6 +590,12 @@ func (w *c19World) packet(i int) {
 	}
 	detail["reference_before"], detail["reference_after_revalidation"] = c19SetString(before), c19SetString(cur)
 	detail["a_current_rule_allows_this_packet"] = ruleNow
+	if f.idled {
+		detail["flow_expired_by_idle_period"] = true
+	}
+	if f.reborn != 0 {
+		detail["flow_created_on_tuple_of_expired_flow_still_in_table"] = map[int]string{1: "same original direction", 2: "opposite original direction"}[f.reborn]
+	}
 
 	switch {
 	case pass && !predictPass:
@@ -605,24 +639,51 @@ func (w *c19World) packet(i int) {
 			if !f.rulesChange && f.settingNoEffect {
 				st.mustPassSettingNoEffect++
 			}
+			if f.reborn != 0 && f.reloads > 0 {
+				st.rebornJudgedPass++
+				if f.reborn == 2 {
+					st.rebornOppositeJudged++
+				}
+			}
 		case pass:
 			st.passRule++
+			if before == c19N && f.idled && staleEntry {
+				st.rebornOnStale++
+				f.reborn = 1
+				if f.lastDir&dirBit == 0 {
+					f.reborn = 2
+					st.rebornOpposite++
+				}
+			}
 		case origDenied:
 			st.mustDropOrigDenied++
 			st.dropForgotten++
 			if f.rulesChange && !f.textChange {
 				st.mustDropMeaningOnly++
 			}
+			if f.reborn != 0 && f.reloads > 0 {
+				st.rebornJudgedDrop++
+				if f.reborn == 2 {
+					st.rebornOppositeJudged++
+				}
+			}
 		default:
 			st.dropUntracked++
+			if f.idled {
+				st.mustDropIdle++
+			}
 		}
 	}
 	f.set = next
+	if next == c19N {
+		f.reborn = 0
+	}
 	if next&c19N == 0 || next == c19N {
 		f.wrapped = false
 	}
 	if pass {
 		f.rulesChange, f.textChange, f.settingNoEffect, f.reloads = false, false, false, 0 // validated (or created) under the current rules
+		f.idled, f.lastDir = false, 0
 	}
 }
 
@@ -683,6 +744,31 @@ func (w *c19World) apply(e c19Ev) {
 			}
 		}
 		w.afterEffectiveReload(changed, false)
+	case 'I':
+		// No packet of any flow for c19Idle. Full node: the virtual clock itself advances (every timer of the node that
+		// becomes due fires). Minimal assembly (parallel worlds, the virtual clock is process-global): the equivalent time
+		// translation - every instant the conntrack table stores (entry expiry, the wheel's last tick) moves c19Idle into
+		// the past; nothing else of this assembly reads the clock.
+		if w.net != nil {
+			vtime.Advance(c19Idle)
+			w.net.nodes[0].settle()
+			w.st.idleRealClock++
+		} else {
+			c19Age(w.f.firewall, c19Idle)
+		}
+		if w.useCach {
+			w.caches = [2]firewall.ConntrackCache{{}, {}} // the routine caches' period is far shorter than the idle period
+		}
+		w.idled = true
+		w.st.idles++
+		for _, f := range w.flows {
+			if f.set&(c19O|c19I) != 0 {
+				w.st.idleExpiredFlows++
+				f.idled, f.lastDir = true, f.set&(c19O|c19I)
+			}
+			f.set, f.reborn = c19N, 0
+			f.rulesChange, f.textChange, f.settingNoEffect, f.wrapped, f.reloads = false, false, false, false, 0
+		}
 	case 'J':
 		// far-away start state: as if (Arg - current) further reloads that changed nothing about the rules had happened with
 		// no traffic in between — the private counter is set directly (DESIGN §2.3)
@@ -709,6 +795,8 @@ func (w *c19World) label(e c19Ev) string {
 		return "reload(same rules, default_local_cidr_any toggled)"
 	case 'U':
 		return "reload(certificate unsafe network toggled)"
+	case 'I':
+		return fmt.Sprintf("idle(%v without traffic)", c19Idle)
 	case 'J':
 		return fmt.Sprintf("set rulesVersion=%d", e.Arg)
 	case 'K':
@@ -726,8 +814,15 @@ func (w *c19World) menu(sets []int) []c19Ev {
 		out = append(out, c19Ev{'L', s})
 	}
 	out = append(out, c19Ev{'T', 0}, c19Ev{'D', 0}, c19Ev{'U', 0})
-	if !w.jumped {
+	if !w.jumped && !w.idled {
+		// (one idle period or one counter jump per history: the two far-away mechanisms are not combined)
 		out = append(out, c19Ev{'J', 65534}, c19Ev{'J', 65535})
+		for _, f := range w.flows {
+			if f.set&(c19O|c19I) != 0 { // an idle period with no flow to expire changes nothing
+				out = append(out, c19Ev{'I', 0})
+				break
+			}
+		}
 	}
 	if w.useCach {
 		out = append(out, c19Ev{'K', 0})
@@ -742,13 +837,33 @@ func (w *c19World) key() string {
 	for _, p := range w.alpha {
 		names[p.P] = p.Flow
 	}
-	fmt.Fprintf(&sb, "rs=%d t=%v u=%v d=%v/%v j=%v v=%d h=%s un=%v|", w.rs, w.touch, w.unsafe, w.dla, fw.defaultLocalCIDRAny, w.jumped, fw.rulesVersion, fw.GetRuleHash()[:8], fw.unsafeNetworks)
+	fmt.Fprintf(&sb, "rs=%d t=%v u=%v d=%v/%v j=%v i=%v v=%d h=%s un=%v|", w.rs, w.touch, w.unsafe, w.dla, fw.defaultLocalCIDRAny, w.jumped, w.idled, fw.rulesVersion, fw.GetRuleHash()[:8], fw.unsafeNetworks)
 	var cs []string
+	now := vtime.Now()
 	for p, c := range fw.Conntrack.Conns {
-		cs = append(cs, fmt.Sprintf("%s:%v:%d", names[p], c.incoming, c.rulesVersion))
+		cs = append(cs, fmt.Sprintf("%s:%v:%d:%v", names[p], c.incoming, c.rulesVersion, c.Expires.After(now)))
 	}
 	sort.Strings(cs)
 	sb.WriteString(strings.Join(cs, ","))
+	if w.idled {
+		// after the idle period the wheel decides when the expired entries leave the table: the reaping queue and the
+		// slots (relative to the wheel's position) are part of the state. Before it the clock stands still and the wheel's
+		// content only mirrors the order of insertion (not distinguished, as before).
+		tw := fw.Conntrack.TimerWheel
+		sb.WriteString("|wheel=")
+		for it := tw.expired.Head; it != nil; it = it.Next {
+			sb.WriteString(names[it.Item] + ".")
+		}
+		for k := 0; k < tw.wheelLen; k++ {
+			sb.WriteString("/")
+			for it := tw.wheel[(tw.current+k)%tw.wheelLen].Head; it != nil; it = it.Next {
+				sb.WriteString(names[it.Item] + ".")
+			}
+		}
+		if tw.lastTick != nil {
+			fmt.Fprintf(&sb, "@%v", now.Sub(*tw.lastTick))
+		}
+	}
 	if w.useCach {
 		for i := range w.caches {
 			var ks []string
@@ -761,10 +876,10 @@ func (w *c19World) key() string {
 	}
 	var rs []string
 	for p, f := range w.flows {
-		if f.set == c19N && !f.rulesChange {
+		if f.set == c19N && !f.rulesChange && !f.idled {
 			continue
 		}
-		rs = append(rs, fmt.Sprintf("%s=%s/%v/%v/%v/%v/%v", names[p], c19SetString(f.set), f.rulesChange, f.textChange, f.settingNoEffect, f.wrapped, f.reloads > 0))
+		rs = append(rs, fmt.Sprintf("%s=%s/%v/%v/%v/%v/%v/%v%s/%d", names[p], c19SetString(f.set), f.rulesChange, f.textChange, f.settingNoEffect, f.wrapped, f.reloads > 0, f.idled, c19SetString(f.lastDir), f.reborn))
 	}
 	sort.Strings(rs)
 	sb.WriteString("|ref=" + strings.Join(rs, ","))
@@ -781,7 +896,8 @@ func TestVerifC19(t *testing.T) {
 	c.Assume("a flow is forgotten at the latest when one of its packets is evaluated while the current rules deny its original direction (the statement's 'otherwise the flow is forgotten'); it must then not come back without a new allowed packet")
 	c.Assume("lazy and eager forgetting are both accepted: a flow whose original direction some intermediate rule set denied may or may not survive until rules allow it again (weak reading of 'otherwise the flow is forgotten')")
 	c.Assume("a rulesVersion wrap (65535 -> 0) may forget any flow, even one the rules still allow and even when the reload changed nothing about the rules (DESIGN ◊: forgetting more than necessary on wrap is tolerated; counted in wrap_forgot_still_allowed_flows); honouring a flow the rules no longer allow is never tolerated")
-	c.Assume("far-away start states: rulesVersion 65534 / 65535 are written into the private field once per history (equivalent to that many no-traffic reloads that changed nothing about the rules); the clock does not advance (idle expiry is C18's subject)")
+	c.Assume("far-away start states: rulesVersion 65534 / 65535 are written into the private field once per history (equivalent to that many no-traffic reloads that changed nothing about the rules); outside the idle event the clock does not advance")
+	c.Assume(fmt.Sprintf("idle event (at most one per history, not combined with the counter jump): no packet of any flow for %v, far beyond every conntrack timeout (tcp 12m) plus the timer wheel's rounding C18 grants; every tracked flow is then expired (C18's statement): a packet no rule allows is refused, a rule-allowed packet starts a NEW flow whose original direction is that packet's, and the reloads that follow judge that flow. On the full node the virtual clock itself advances; in the minimal assembly (parallel worlds, process-global clock) the equivalent time translation is applied to the instants the conntrack table stores (entry expiry, the wheel's last tick)", c19Idle))
 	c.Assume("routine-local cache (thorough only): modelled as the two per-direction maps handed to Drop, cleared by an explicit cache-tick event; a verdict served from a stale cache entry is not judged (the cache is not version-aware by design and bounded by its period)")
 	c.Assume("packets whose local address the node's certificate no longer covers (after the unsafe-network change) must be refused, but that is C17's subject: it is reported under its own signature")
 
@@ -798,15 +914,31 @@ func TestVerifC19(t *testing.T) {
 		cache    bool
 		depth    int
 		share    float64 // cumulative share of the soft budget after which this box stops (a box that closes early leaves its time to the next)
+		starts   [][]c19Ev // scripted start states (each searched to depth on its own); nil: the initial state
 	}
+	// start states "one flow tracked, then expired by the idle period, its entry still in the table": one per packet of the
+	// alphabet that the initial rules let start a flow
+	var idleStarts [][]c19Ev
+	for i := range alpha {
+		w := c19NewWorld(c, t, alpha, false, false, &c19Stat{versions: map[uint64]bool{}})
+		w.apply(c19Ev{'P', i})
+		if f := w.flows[alpha[i].P]; f != nil && f.set&(c19O|c19I) != 0 {
+			idleStarts = append(idleStarts, []c19Ev{{'P', i}, {'I', 0}})
+		}
+		w.close()
+	}
+	c.Set("idle_start_states", len(idleStarts))
 	// cheap-and-deep first: the minimal assembly runs in parallel and reaches every situation of the vacuity guards; the full
 	// node (one worker, ~3 ms per history) then repeats the shallow part with every reload callback of Main() registered
+	// (cheapest first: the start-state box is small, so a run that the shared machine caps has still seen the idle situations;
+	// the idle event is also part of every other box's menu, at any position of the history)
 	boxes := []boxT{
-		{"minimal assembly", false, false, mc.Pick(c, 5, 7), mc.Pick(c, 0.6, 0.55)},
-		{"full node", true, false, mc.Pick(c, 3, 4), mc.Pick(c, 1.0, 0.8)},
+		{"minimal assembly from the expired-flow start states", false, false, mc.Pick(c, 3, 4), mc.Pick(c, 0.15, 0.05), idleStarts},
+		{"minimal assembly", false, false, mc.Pick(c, 5, 7), mc.Pick(c, 0.65, 0.55), nil},
+		{"full node", true, false, mc.Pick(c, 3, 4), mc.Pick(c, 1.0, 0.8), nil},
 	}
 	if c.Thorough() {
-		boxes = append(boxes, boxT{"minimal assembly + routine cache", false, true, 6, 1.0})
+		boxes = append(boxes, boxT{"minimal assembly + routine cache", false, true, 6, 1.0, nil})
 	}
 	budget := mc.Pick(c, 45.0, 900.0)
 	if f, err := strconv.ParseFloat(os.Getenv("VERIF_BUDGET_S"), 64); err == nil && f > 0 {
@@ -817,7 +949,16 @@ func TestVerifC19(t *testing.T) {
 	for _, b := range boxes {
 		b := b
 		var timedOut atomic.Bool
-		res := mc.BFSReplay(c, mc.BFSConfig[c19Ev]{
+		vtime.Reset() // the parallel worlds of the minimal assembly only read the clock: it stands at Epoch for each box
+		starts := b.starts
+		if starts == nil {
+			starts = [][]c19Ev{nil}
+		}
+		var res mc.BFSResult
+		res.Exhaustive = true
+		for _, start := range starts {
+			start := start
+			r := mc.BFSReplay(c, mc.BFSConfig[c19Ev]{
 			MaxDepth: b.depth,
 			Workers:  map[bool]int{true: 1, false: 0}[b.fullNode], // node assembly pins process-global randomness and the virtual clock
 			Label: func(e c19Ev) string {
@@ -834,12 +975,22 @@ func TestVerifC19(t *testing.T) {
 			Run: func(hist []c19Ev) (string, []c19Ev) {
 				w := c19NewWorld(c, t, alpha, b.fullNode, b.cache, st)
 				defer w.close()
+				for _, e := range start {
+					w.apply(e)
+				}
 				for _, e := range hist {
 					w.apply(e)
 				}
 				return w.key(), w.menu(sets)
 			},
-		})
+			})
+			res.States += r.States
+			res.Transitions += r.Transitions
+			if r.MaxDepth > res.MaxDepth {
+				res.MaxDepth = r.MaxDepth
+			}
+			res.Exhaustive = res.Exhaustive && r.Exhaustive
+		}
 		fmt.Printf("INFO C19 %s: states=%d transitions=%d depth=%d closed=%v t=%.1fs\n", b.name, res.States, res.Transitions, res.MaxDepth, res.Exhaustive, c.Elapsed())
 		perBox[b.name] = map[string]any{"states": res.States, "transitions": res.Transitions, "max_depth": res.MaxDepth, "closed": res.Exhaustive}
 		if timedOut.Load() {
@@ -880,6 +1031,12 @@ func TestVerifC19(t *testing.T) {
 			kinds++
 		}
 	}
+	c.Set("idle", map[string]any{
+		"idle_periods": st.idles, "of_which_on_the_virtual_clock_itself": st.idleRealClock, "tracked_flows_expired_by_idle": st.idleExpiredFlows,
+		"must_drop_flow_expired_by_idle": st.mustDropIdle, "flows_created_on_expired_entry_still_in_table": st.rebornOnStale,
+		"of_which_with_opposite_original_direction": st.rebornOpposite, "such_flows_judged_after_later_reload_must_pass": st.rebornJudgedPass,
+		"such_flows_judged_after_later_reload_must_drop": st.rebornJudgedDrop, "opposite_direction_ones_judged_after_later_reload": st.rebornOppositeJudged,
+	})
 	c.Set("distinct_outcomes", kinds)
 
 	if complete && c.Violations() == 0 {
@@ -892,6 +1049,9 @@ func TestVerifC19(t *testing.T) {
 		c.Require(st.mustPassSettingNoEffect > 0, "no established flow judged after a default_local_cidr_any / certificate reload that leaves the rules' meaning alone")
 		c.Require(st.wrapSeen > 0 && st.wrapForgotAllowed > 0, "version wrap not exercised: wraps=%d forgot=%d", st.wrapSeen, st.wrapForgotAllowed)
 		c.Require(st.versions[0] && st.versions[65534] && st.versions[65535] && st.versions[1], "rulesVersion values reached: %v", vs)
+		c.Require(st.idles > 0 && st.idleRealClock > 0 && st.idleExpiredFlows > 0 && st.mustDropIdle > 0, "idle event not exercised: periods=%d on the clock=%d flows expired=%d refused afterwards=%d", st.idles, st.idleRealClock, st.idleExpiredFlows, st.mustDropIdle)
+		c.Require(st.rebornOnStale > 0 && st.rebornOpposite > 0, "no flow created on a tuple whose expired entry was still in the table (any=%d, opposite direction=%d)", st.rebornOnStale, st.rebornOpposite)
+		c.Require(st.rebornJudgedPass > 0 && st.rebornJudgedDrop > 0 && st.rebornOppositeJudged > 0, "no flow created on an expired entry judged after a later reload (must pass=%d, must drop=%d, opposite direction=%d)", st.rebornJudgedPass, st.rebornJudgedDrop, st.rebornOppositeJudged)
 		c.Require(st.unroutable > 0, "unsafe-network flow never probed while the network was withdrawn")
 		if c.Thorough() {
 			c.Require(st.staleCacheHits > 0, "routine cache never served a verdict")
@@ -909,6 +1069,23 @@ func c19VersionField(c *mc.Check, fw *Firewall) reflect.Value {
 		c.Broken("Firewall.rulesVersion is not an unsigned integer field any more")
 	}
 	return reflect.NewAt(f.Type(), unsafe.Pointer(f.UnsafeAddr())).Elem()
+}
+
+// c19Idle: the idle period. Conntrack timeouts of the configuration: tcp 12m, udp 3m, default 10m/11m; wheel tick 3m.
+const c19Idle = 6 * vtime.Hour
+
+// c19Age is the time translation "d passed without traffic" on everything the conntrack table stores about time.
+func c19Age(fw *Firewall, d vtime.Duration) {
+	ct := fw.Conntrack
+	ct.Lock()
+	defer ct.Unlock()
+	for _, e := range ct.Conns {
+		e.Expires = e.Expires.Add(-d)
+	}
+	if lt := ct.TimerWheel.lastTick; lt != nil {
+		t := lt.Add(-d)
+		ct.TimerWheel.lastTick = &t
+	}
 }
 
 func c19SetVersion(c *mc.Check, fw *Firewall, v uint64) { c19VersionField(c, fw).SetUint(v) }
